@@ -32,6 +32,7 @@ from .introspect import (
     get_assign_targets,
     python_builtin_names,
     getsource_class,
+    _ScopedVisitor,
 )
 from .structures import (
     FunctionArgContext,
@@ -376,7 +377,7 @@ class InspectFunctionIndirect(object):
         return _introspect(caller_fun, gctx, new_call_stack)
 
 
-class IntroVisitorIndirect(ast.NodeVisitor):
+class IntroVisitorIndirect(_ScopedVisitor):
     def __init__(
         self,
         start_mod: ModuleType,
@@ -389,7 +390,7 @@ class IntroVisitorIndirect(ast.NodeVisitor):
         # TODO: start_mod is in the global context
         self._start_mod = start_mod
         self._gctx = gctx
-        self._function_var_names = set(function_var_names)
+        self._scope_locals = set(function_var_names)
         self._store_names: Set[LocalVar] = {current_fun_name}
         self._call_stack = call_stack
         # All the calls to a load and subsequent function calls, ordered
@@ -403,17 +404,11 @@ class IntroVisitorIndirect(ast.NodeVisitor):
             node,
             self._gctx,
             self._start_mod,
-            self._function_var_names,
+            self._scope_locals,
             self._call_stack,
         )
         if fi_or_p is not None:
             self.results.append(fi_or_p)
-        self.generic_visit(node)
-
-    def visit_Assign(self, node: ast.Assign) -> Any:
-        targets = get_assign_targets(node)
-        if targets:
-            self._store_names.update(targets)
         self.generic_visit(node)
 
     def visit_Name(self, node: ast.Name) -> Any:
@@ -424,7 +419,7 @@ class IntroVisitorIndirect(ast.NodeVisitor):
         if (
             node.id in self._start_mod.__dict__
             and node.id not in python_builtin_names
-            and LocalVar(node.id) not in self._function_var_names
+            and LocalVar(node.id) not in self._scope_locals
             and LocalVar(node.id) not in self._store_names
         ):
             # Quick check that it is indeed a function or a module:
@@ -445,7 +440,7 @@ class IntroVisitorIndirect(ast.NodeVisitor):
                     call_node,
                     self._gctx,
                     self._start_mod,
-                    self._function_var_names,
+                    self._scope_locals,
                     self._call_stack,
                 )
                 if fi_or_p is not None:
